@@ -140,6 +140,21 @@ def random_batches(tier, rng, n_cases, same_version=True):
 def gen_c01(tier, rng):
     cases = small_exhaustive(tier, rng)
     cases += random_batches(tier, rng, 1500 if tier == "quick" else 20000)
+    # any encoder history before the batch (the theorem quantifies over every encoder state)
+    for c in random_batches(tier, rng, 300 if tier == "quick" else 3000):
+        m = c.meta
+        n = len(m["pkts"])
+        pre = []
+        for _h in range(rng.randrange(1, 4)):
+            mx = rng.choice([25, 40, 64, 100, 1500])
+            ids = " ".join("p%d" % rng.randrange(n) for _k in range(rng.randrange(0, 4)))
+            pre.append(("enc e encode %d %d %s" % (rng.choice([0, mx]), mx, ids)).rstrip())
+        if rng.random() < 0.2:
+            pre.append("enc e restart")
+        pos = n + 2
+        c.ops[pos:pos] = pre
+        c.tags = ("history",)
+        cases.append(c)
     # a stale reassembly on the endpoint before the batch arrives
     for c in random_batches(tier, rng, 100 if tier == "quick" else 1000):
         m = c.meta
@@ -229,6 +244,28 @@ def gen_c09(tier, rng):
     ops += ["enc e encode 0 25 p0"] * n
     ops += ["enc e seq", "enc e encode 0 25 p0 p0 p0", "enc e seq"]
     cases.append(Case("wrap", ops, nontrivial=True, tags=("wrap",), meta={"noshrink": True}))
+    cases += wrap_with_segments(tier, "c09")
+    return cases
+
+
+def wrap_with_segments(tier, kind):
+    """histories that cross the 16-bit wrap while segmented packets are being emitted: the frame opened ahead of need after a last
+    segment is dropped again, and for the right history length it is exactly the frame that received counter 0"""
+    cases = []
+    seg2 = gpkt(40, 7, ty=0x0104)          # two segments at max 48 (24 payload bytes per frame)
+    seg3 = gpkt(60, 9, ty=0x0104)          # three segments
+    small = gpkt(5, 1, ty=0x0104)
+    hist = [65529, 65531] if tier == "quick" else [65524, 65525, 65526, 65527, 65528, 65529, 65530, 65531, 65532, 65533, 65534, 65535]
+    for n in hist:
+        ops = [pline(small, "p0"), pline(seg2, "p1"), pline(seg3, "p2"), pline(gpkt(30, 3, ty=0x0301 + 0x00FE), "p3"), "enc e dev 9", "enc e stream 3"]
+        ops += ["enc e encode 0 25 p0"] * n
+        ops += ["enc e seq"]
+        final = "encode 0 48 p1 p1 p1 p1 p3 p2 p2 p0"
+        if kind == "c09":
+            ops += ["enc e " + final, "enc e seq", "enc e encode 0 48 p2 p2", "enc e seq"]
+        else:
+            ops += ["enc e " + final, "enc f dev 9", "enc f stream 3", "enc f " + final]
+        cases.append(Case("wrapseg", ops, nontrivial=True, tags=("wrap-with-segments",), meta={"noshrink": True}))
     return cases
 
 
@@ -247,6 +284,7 @@ def gen_c10(tier, rng):
         final = ("encode %d %d %s" % (mn, mx, ids)).rstrip()
         ops += ["enc e seq", "enc e " + final, "enc f dev %d" % dev, "enc f stream %d" % stream, "enc f " + final]
         cases.append(Case("c10", ops, nontrivial=True, tags=("used-vs-fresh",)))
+    cases += wrap_with_segments(tier, "c10")
     return cases
 
 
